@@ -21,7 +21,10 @@ ID = 'C19'
 LEVEL = 'fault_enumeration'
 VERIF = os.path.dirname(os.path.dirname(os.path.dirname(os.path.dirname(os.path.abspath(__file__)))))
 BROOT = os.environ.get('VERIF_BUILD', os.path.join(VERIF, 'build'))
-XFAULT = os.path.join(BROOT, 'asan', 'drv', 'xfault')
+# bin/check-c19 points these at a per-run snapshot so that a concurrent rebuild of the library cannot change
+# the code under test (or its symbolization) in the middle of a run
+XFAULT = os.environ.get('VERIF_C19_XFAULT', os.path.join(BROOT, 'asan', 'drv', 'xfault'))
+LIBDIR = os.environ.get('VERIF_C19_LIBDIR')
 FINDINGS = os.environ.get('VERIF_FINDINGS', os.path.join(VERIF, 'known_findings.jsonl'))
 JOBS = int(os.environ.get('VERIF_WORKERS', '16'))
 SURVEY = os.environ.get('VERIF_C19_SURVEY')     # diagnostics: dump every unknown signature with one example, no confirmation
@@ -59,6 +62,8 @@ ENV = dict(os.environ)
 ENV['ASAN_OPTIONS'] = 'detect_leaks=0:symbolize=0:abort_on_error=0:allocator_may_return_null=1:detect_stack_use_after_return=0:handle_abort=0'
 ENV['UBSAN_OPTIONS'] = 'print_stacktrace=1:halt_on_error=1:symbolize=0'
 ENV['LC_ALL'] = 'C'
+if LIBDIR:
+    ENV['LD_LIBRARY_PATH'] = LIBDIR + (':' + ENV['LD_LIBRARY_PATH'] if ENV.get('LD_LIBRARY_PATH') else '')
 ENV['TZ'] = 'UTC'
 
 
@@ -612,13 +617,14 @@ def build_strategies(tier='quick'):
                 alive[s] = True
                 continue
             u = draw(st.integers(0, nunits - 1))
-            opts = ['run', 'run', 'compile', 'parse', 'params', 'clearparams', 'delete']
+            opts = ['run', 'run', 'compile', 'parse', 'parsex', 'params', 'clearparams', 'delete']
             if u in cs[s]:
                 opts += ['runcs', 'runcs', 'dcs']
                 opts.remove('compile')
             if u in ps[s]:
                 opts += ['runps', 'runps', 'dps']
                 opts.remove('parse')
+                opts.remove('parsex')
             if u in cs[s] and u in ps[s]:
                 opts += ['runcp', 'runcp', 'runcp']
             op = draw(st.sampled_from(opts))
@@ -650,8 +656,8 @@ def build_strategies(tier='quick'):
         (['new', 'compile:0', 'parse:0', 'runcp:0', 'dcs:0', 'dps:0', 'delete'], 1),
         (['new', 'compile:0', 'runcs:0', 'runcs:0'], 1),
         (['new', 'parse:0', 'runps:0'], 1),
-        # ('parsex' = parseSource(useXercesDOM=true) is supported by xfault but not generated: on the pinned tree the
-        #  no-fault run already stops in UBSan at XercesDocumentWrapper.cpp:90, reference bound to a null navigator)
+        (['new', 'parsex:0', 'compile:0', 'runcp:0'], 1),      # Xerces DOM + wrapper as parsed source
+        (['new', 'parsex:0', 'runps:0', 'dps:0'], 1),
         (['new', 'params', 'run:0', 'clearparams'], 1),
         (['new', 'run:0', 'delete', 'new', 'run:0'], 1),
         (['new', 'new@1', 'run:0', 'run:0@1', 'delete', 'delete@1'], 1),
